@@ -2,13 +2,17 @@
   C06 — Signing fails closed.
 
   For all five signing operations of the signer model, under every fault plan (failing fetches at any
-  positions, a failing store call whose write landed or not, failing signing calls at any positions),
+  positions, a failing store call whose write landed or not, failing signing calls at any positions,
+  accounts that cannot say whether they are unlocked),
   every configuration, client, addressing mode and data: a response position carries a signature if
   and only if its state is SUCCEEDED; the response has one position per request (one for an empty
   request); and an injected fault on the path of a position leaves it without a signature.
+  Under the lock-state fault no position of any request is signed and the instance state is untouched
+  (`C06_lock_state_fault_*`; the complete outcome: `sign*_lock_state_fault`, `multisign_lock_state_fault`).
 -/
 import Dirk.Props.FactsResults
 import Dirk.Lemmas.Run
+import Dirk.Lemmas.PreCheck
 
 namespace Dirk
 
@@ -19,7 +23,7 @@ theorem verdictRes_ne_succeeded {v : Verdict} (h : v ≠ .approved) : verdictRes
   cases v <;> simp_all [verdictRes]
 
 theorem preCheck_error_ne_succeeded (cfg : Config) (client : String) (a : Addr) (op : String) (r : Res)
-    (h : preCheck cfg client a op = .error r) : r ≠ .succeeded := by
+    {lf : Bool} (h : preCheck cfg client a op lf = .error r) : r ≠ .succeeded := by
   unfold preCheck at h
   repeat' split at h
   all_goals first | (injection h with h; subst h; simp) | cases h
@@ -57,8 +61,8 @@ theorem C06_prop (s : Inst) (c : String) (a : Addr) (d : PropData) (f : Faults) 
       all_goals simp
 
 /-- **C06 (generic).** -/
-theorem C06_sign (s : Inst) (c ip : String) (a : Addr) (d : SignData) (sf : Bool) :
-    (signGeneric s c ip a d sf).2.closed := by
+theorem C06_sign (s : Inst) (c ip : String) (a : Addr) (d : SignData) (sf lf : Bool) :
+    (signGeneric s c ip a d sf lf).2.closed := by
   unfold signGeneric Pos.closed
   split
   · simp
@@ -114,8 +118,8 @@ theorem preCheckPositions_closed {α : Type} (pcs : List (Except Res α))
   | ok a => simp
 
 theorem preCheckAll_error_ne_succeeded {α : Type} (cfg : Config) (client op : String)
-    (items : List (Addr × α)) :
-    ∀ p ∈ preCheckAll cfg client op items, ∀ r, p = .error r → r ≠ .succeeded := by
+    (items : List (Addr × α)) {lf : Bool} :
+    ∀ p ∈ preCheckAll cfg client op items lf, ∀ r, p = .error r → r ≠ .succeeded := by
   intro p hp r hr
   unfold preCheckAll at hp
   obtain ⟨it, _, rfl⟩ := List.mem_map.mp hp
@@ -150,8 +154,8 @@ theorem C06_atts (s : Inst) (c : String) (items : List (Addr × AttData)) (f : F
           · exact signEvs_closed sf _ 0
 
 /-- **C06 (multisign), position by position.** -/
-theorem C06_msign (s : Inst) (c ip : String) (items : List (Addr × SignData)) (sf : List Nat) :
-    ∀ p ∈ (multisign s c ip items sf).2, p.closed := by
+theorem C06_msign (s : Inst) (c ip : String) (items : List (Addr × SignData)) (sf : List Nat) (lf : Bool) :
+    ∀ p ∈ (multisign s c ip items sf lf).2, p.closed := by
   unfold multisign
   simp only
   split
@@ -332,7 +336,7 @@ theorem C06_shape_atts (s : Inst) (c : String) (items : List (Addr × AttData)) 
     · split
       · simp [preCheckPositions, preCheckAll]
       · rename_i hne
-        have hlen : (okItems (preCheckAll s.cfg c opAttest items)).length = items.length := by
+        have hlen : (okItems (preCheckAll s.cfg c opAttest items f.lockStateFail)).length = items.length := by
           rw [okItems_length _ (by simpa using hne)]; simp [preCheckAll]
         split
         · simp
@@ -343,8 +347,8 @@ theorem C06_shape_atts (s : Inst) (c : String) (items : List (Addr × AttData)) 
             simp [signEvs_length, rulesKeyed_length hev, hlen]
 
 /-- **C06 (shape, multisign).** -/
-theorem C06_shape_msign (s : Inst) (c ip : String) (items : List (Addr × SignData)) (sf : List Nat) :
-    (multisign s c ip items sf).2.length = max 1 items.length := by
+theorem C06_shape_msign (s : Inst) (c ip : String) (items : List (Addr × SignData)) (sf : List Nat) (lf : Bool) :
+    (multisign s c ip items sf lf).2.length = max 1 items.length := by
   unfold multisign
   simp only
   split
@@ -357,11 +361,195 @@ theorem C06_shape_msign (s : Inst) (c ip : String) (items : List (Addr × SignDa
     · split
       · simp [preCheckPositions, preCheckAll]
       · rename_i hne
-        have hlen : (okItems (preCheckAll s.cfg c opSign items)).length = items.length := by
+        have hlen : (okItems (preCheckAll s.cfg c opSign items lf)).length = items.length := by
           rw [okItems_length _ (by simpa using hne)]; simp [preCheckAll]
         split
         · simp
         · simp [signGenerics_length, hlen]
+
+/-! ## The lock-state fault
+
+`lockStateFail`: every account fetched for the request answers `IsUnlocked()` with an error.  In the Go,
+`unlockAccount` turns that error into FAILED, `preCheck` returns it, and
+* the single endpoints return `(checkRes, nil)` right there — before the ruler is called;
+* `SignBeaconAttestations` / `Multisign` pre-check EVERY entry (an entry that fails gets its own pre-check
+  result, one that passes stays UNKNOWN), and if any entry's result is neither UNKNOWN nor SUCCEEDED they
+  return `(results, nil)` — before `RunRules`.  Under this fault no entry passes, so every entry carries its
+  own pre-check result: DENIED if the account does not resolve or the permission check refuses it (both come
+  before the lock state is asked), FAILED otherwise — also for an account whose passphrase is unknown.
+The rules are never consulted, nothing is signed, nothing is written. -/
+
+/-- the complete outcome of `SignBeaconAttestation` under the fault -/
+theorem signAtt_lock_state_fault (s : Inst) (c : String) (a : Addr) (d : AttData) (f : Faults) (sf : Bool)
+    (h : f.lockStateFail = true) :
+    signAtt s c a d f sf =
+      (s, ⟨if d.wellFormed then lockFaultRes s.cfg c a opAttest else .denied, none⟩) := by
+  unfold signAtt
+  rw [h, preCheck_lock_state_fault]
+  cases d.wellFormed <;> simp
+
+theorem signProp_lock_state_fault (s : Inst) (c : String) (a : Addr) (d : PropData) (f : Faults) (sf : Bool)
+    (h : f.lockStateFail = true) :
+    signProp s c a d f sf =
+      (s, ⟨if d.wellFormed then lockFaultRes s.cfg c a opPropose else .denied, none⟩) := by
+  unfold signProp
+  rw [h, preCheck_lock_state_fault]
+  cases d.wellFormed <;> simp
+
+theorem signGeneric_lock_state_fault (s : Inst) (c ip : String) (a : Addr) (d : SignData) (sf : Bool) :
+    signGeneric s c ip a d sf true =
+      (s, ⟨if d.wellFormed then lockFaultRes s.cfg c a opSign else .denied, none⟩) := by
+  unfold signGeneric
+  rw [preCheck_lock_state_fault]
+  cases d.wellFormed <;> simp
+
+/-- the complete outcome of `SignBeaconAttestations` under the fault: the state is untouched and the response
+    depends on nothing but the request, the accounts and the permissions — not on the store, the other faults
+    or the signing faults (the rules are not consulted) -/
+theorem signAtts_lock_state_fault (s : Inst) (c : String) (items : List (Addr × AttData)) (f : Faults)
+    (sf : List Nat) (h : f.lockStateFail = true) :
+    signAtts s c items f sf =
+      (s, if items.length = 0 then [⟨.denied, none⟩] else
+          match firstMalformed (items.map (·.2)) with
+          | some i => (List.range items.length).map (fun j => if j = i then ⟨.denied, none⟩ else ⟨.unknown, none⟩)
+          | none => items.map (fun it => ⟨lockFaultRes s.cfg c it.1 opAttest, none⟩)) := by
+  unfold signAtts
+  simp only [h]
+  split
+  · rfl
+  · rename_i h0
+    cases firstMalformed (items.map (·.2)) with
+    | some i => rfl
+    | none =>
+      simp only
+      rw [if_pos (preCheckAll_lock_state_fault_any _ _ _ _ (by intro hn; subst hn; exact h0 rfl))]
+      rw [preCheckAll_lock_state_fault]
+      simp [preCheckPositions]
+
+theorem multisign_lock_state_fault (s : Inst) (c ip : String) (items : List (Addr × SignData)) (sf : List Nat) :
+    multisign s c ip items sf true =
+      (s, if items.length = 0 then [⟨.denied, none⟩] else
+          match (items.map (·.2)).findIdx? (fun d => !d.wellFormed) with
+          | some i => (List.range items.length).map (fun j => if j = i then ⟨.denied, none⟩ else ⟨.unknown, none⟩)
+          | none => items.map (fun it => ⟨lockFaultRes s.cfg c it.1 opSign, none⟩)) := by
+  unfold multisign
+  simp only
+  split
+  · rfl
+  · rename_i h0
+    cases (items.map (·.2)).findIdx? (fun d => !d.wellFormed) with
+    | some i => rfl
+    | none =>
+      simp only
+      rw [if_pos (preCheckAll_lock_state_fault_any _ _ _ _ (by intro hn; subst hn; exact h0 rfl))]
+      rw [preCheckAll_lock_state_fault]
+      simp [preCheckPositions]
+
+/-- **C06 (lock-state fault, single attestation).** No signature, not SUCCEEDED, and the whole instance state
+    (`db`, `attLog`, `propLog`, `signLog`, `cfg`) is what it was. -/
+theorem C06_lock_state_fault_att (s : Inst) (c : String) (a : Addr) (d : AttData) (f : Faults) (sf : Bool)
+    (h : f.lockStateFail = true) :
+    (signAtt s c a d f sf).2.root = none ∧ (signAtt s c a d f sf).2.res ≠ .succeeded ∧
+    (signAtt s c a d f sf).1 = s := by
+  rw [signAtt_lock_state_fault s c a d f sf h]
+  refine ⟨rfl, ?_, rfl⟩
+  simp only
+  split
+  · exact lockFaultRes_ne_succeeded _ _ _ _
+  · simp
+
+/-- **C06 (lock-state fault, proposal).** -/
+theorem C06_lock_state_fault_prop (s : Inst) (c : String) (a : Addr) (d : PropData) (f : Faults) (sf : Bool)
+    (h : f.lockStateFail = true) :
+    (signProp s c a d f sf).2.root = none ∧ (signProp s c a d f sf).2.res ≠ .succeeded ∧
+    (signProp s c a d f sf).1 = s := by
+  rw [signProp_lock_state_fault s c a d f sf h]
+  refine ⟨rfl, ?_, rfl⟩
+  simp only
+  split
+  · exact lockFaultRes_ne_succeeded _ _ _ _
+  · simp
+
+/-- **C06 (lock-state fault, generic).** -/
+theorem C06_lock_state_fault_sign (s : Inst) (c ip : String) (a : Addr) (d : SignData) (sf : Bool) :
+    (signGeneric s c ip a d sf true).2.root = none ∧ (signGeneric s c ip a d sf true).2.res ≠ .succeeded ∧
+    (signGeneric s c ip a d sf true).1 = s := by
+  rw [signGeneric_lock_state_fault s c ip a d sf]
+  refine ⟨rfl, ?_, rfl⟩
+  simp only
+  split
+  · exact lockFaultRes_ne_succeeded _ _ _ _
+  · simp
+
+/-- **C06 (lock-state fault, batch attestations).** For every item list (empty, malformed somewhere, any mix
+    of unknown / forbidden / locked / good accounts, duplicates): NO position carries a signature or is
+    SUCCEEDED, and the whole instance state is what it was. -/
+theorem C06_lock_state_fault_atts (s : Inst) (c : String) (items : List (Addr × AttData)) (f : Faults)
+    (sf : List Nat) (h : f.lockStateFail = true) :
+    (∀ p ∈ (signAtts s c items f sf).2, p.root = none ∧ p.res ≠ .succeeded) ∧
+    (signAtts s c items f sf).1 = s := by
+  rw [signAtts_lock_state_fault s c items f sf h]
+  refine ⟨?_, rfl⟩
+  intro p hp
+  simp only at hp
+  split at hp
+  · simp at hp; subst hp; simp
+  · split at hp
+    · obtain ⟨j, _, rfl⟩ := List.mem_map.mp hp
+      split <;> simp
+    · obtain ⟨it, _, rfl⟩ := List.mem_map.mp hp
+      exact ⟨rfl, lockFaultRes_ne_succeeded _ _ _ _⟩
+
+/-- **C06 (lock-state fault, multisign).** -/
+theorem C06_lock_state_fault_msign (s : Inst) (c ip : String) (items : List (Addr × SignData)) (sf : List Nat) :
+    (∀ p ∈ (multisign s c ip items sf true).2, p.root = none ∧ p.res ≠ .succeeded) ∧
+    (multisign s c ip items sf true).1 = s := by
+  rw [multisign_lock_state_fault s c ip items sf]
+  refine ⟨?_, rfl⟩
+  intro p hp
+  simp only at hp
+  split at hp
+  · simp at hp; subst hp; simp
+  · split at hp
+    · obtain ⟨j, _, rfl⟩ := List.mem_map.mp hp
+      split <;> simp
+    · obtain ⟨it, _, rfl⟩ := List.mem_map.mp hp
+      exact ⟨rfl, lockFaultRes_ne_succeeded _ _ _ _⟩
+
+/-! ### the lock-state fault on a concrete configuration -/
+
+namespace C06ex
+
+def good : Account := { wallet := "w", name := "a", pubkey := List.replicate 48 7 }
+/-- an account whose passphrase is not known to the unlocker -/
+def locked : Account := { wallet := "w", name := "l", pubkey := List.replicate 48 8, unlockable := false }
+def cfg : Config :=
+  { accounts := [good, locked],
+    access := [("c", [{ wallet := .star .any, account := .star .any, ops := ["All"] }])] }
+def data : AttData :=
+  { domain := some ([1, 0, 0, 0] ++ List.replicate 28 0), slot := 0, cidx := 0, bbr := some [], src := 1,
+    srcRoot := some [], tgt := 2, tgtRoot := some [] }
+def batch : List (Addr × AttData) := [({ name := "w/a" }, data), ({ name := "w/none" }, data), ({ name := "w/l" }, data)]
+
+/-- without the fault: the good account passes, the locked one is DENIED … -/
+example : preCheck cfg "c" { name := "w/a" } opAttest = .ok good := by decide
+example : preCheck cfg "c" { name := "w/l" } opAttest = .error .denied := by decide
+/-- … with it: both are FAILED (the error comes before any passphrase is tried); an unknown account and a
+    client without permission stay DENIED (both are decided before the lock state is asked) -/
+example : preCheck cfg "c" { name := "w/a" } opAttest true = .error .failed := by decide
+example : preCheck cfg "c" { name := "w/l" } opAttest true = .error .failed := by decide
+example : preCheck cfg "c" { name := "w/none" } opAttest true = .error .denied := by decide
+example : preCheck cfg "other" { name := "w/a" } opAttest true = .error .denied := by decide
+
+/-- a batch without the fault: the good position stays UNKNOWN, the others carry their own result … -/
+example : (signAtts { cfg := cfg } "c" batch {}).2 = [⟨.unknown, none⟩, ⟨.denied, none⟩, ⟨.denied, none⟩] := by
+  decide
+/-- … and with it: every position carries its own pre-check result, none is UNKNOWN -/
+example : (signAtts { cfg := cfg } "c" batch { lockStateFail := true }).2 =
+    [⟨.failed, none⟩, ⟨.denied, none⟩, ⟨.failed, none⟩] := by
+  rw [signAtts_lock_state_fault _ _ _ _ _ rfl]; decide
+
+end C06ex
 
 /-- non-vacuity: a concrete store fault turns an otherwise approved request into FAILED -/
 example : (onAttest [] [7] ⟨domAttester, 1, 2⟩ { storeFail := true }).1 = .failed := by decide
